@@ -132,6 +132,13 @@ def setup_env(ctx):
                                   stubs_c=os.path.join(HERE, "stubs.c"), cclibs=["-lz"])
     e.T = e.info["tools"]
     e.env = dict(os.environ, **SAN_ENV)
+    # the compressor back ends this build can create: the model's run_reader_build is given the same set
+    r = subprocess.run([e.H, "--comps"], stdout=subprocess.PIPE, stderr=subprocess.PIPE, env=e.env, timeout=60)
+    avail = ",".join(l.strip() for l in r.stdout.decode().split("\n") if l.strip().isdigit())
+    if r.returncode != 0 or not avail:
+        raise RuntimeError("h_reader --comps failed: rc=%s %s" % (r.returncode, r.stderr.decode()[-300:]))
+    os.environ["C05_AVAIL"] = avail        # inherited by every model driver process
+    e.avail = avail
     e.dir = os.path.join(ctx.scratch, "img")
     os.makedirs(e.dir, exist_ok=True)
     return e
